@@ -40,6 +40,18 @@ class FnVal:
     __slots__ = ('path',)
     def __init__(s, path): s.path = path
     def __repr__(s): return f'fn {s.path}'
+class BoxPtr:
+    """Box<T> / Unique<T> / NonNull<T> / *const T pointing at a heap cell (a holder frame local)"""
+    __slots__ = ('ref',)
+    def __init__(s, ref): s.ref = ref
+    def mir_field(s, k): return s
+    def __deepcopy__(s, memo): return s
+    def __repr__(s): return 'Box'
+
+def box_new(v):
+    f = Frame(Item('fn', '<heap>', '')); f.locals['b'] = v
+    return BoxPtr(Ref(f, 'b', []))
+
 class Opaque:
     """value the interpreter knows nothing about (result of an un-modelled external call)"""
     __slots__ = ('what', 'args')
@@ -159,8 +171,14 @@ class Interp:
         s.items = items; s.ctx = ctx; s.models = models; s.depth = 0; s.stack = []
         s.enum_discr = dict(ENUM_DISCR); s.enum_discr.update(enums or {})
         s.merge_fns = set(merge_fns)
-        s.steps = 0; s.max_steps = 5_000_000
+        s.steps = 0; s.max_steps = 5_000_000; s.assign_hooks = {}
         s._impl_index = None; s._closure_index = None; s._const_cache = {}
+
+    def run_assign_hook(s, fr, loc, val):
+        for (name_re, dbg), hook in s.assign_hooks.items():
+            if loc in fr.item.debug.get(dbg, ()) and re.search(name_re, fr.item.name):
+                return hook(s, fr, loc, val)
+        return val
 
     # ------------------------------------------------------------------ item lookup
     def impl_index(s):
@@ -305,14 +323,16 @@ class Interp:
                 if isinstance(r, SliceRef):
                     f, l, p = r.base.frame, r.base.local, list(r.base.path) + [('slice', r.start, r.len)]
                 elif isinstance(r, Ref): f, l, p = r.frame, r.local, list(r.path)
+                elif isinstance(r, BoxPtr): f, l, p = r.ref.frame, r.ref.local, list(r.ref.path)
                 elif isinstance(r, Agg) and r.name == 'Box': f, l, p = r.fields[0].frame, r.fields[0].local, list(r.fields[0].path)
                 else: raise Unsupported(f'deref of {r!r} at {loc}{proj}')
             elif k == 'field': p.append(pr[1])
             elif k == 'cindex': p.append(('cidx', pr[1], pr[2]))
             elif k == 'index':
                 iv = frame.locals[pr[1]]
-                if not isinstance(iv, int): raise Unsupported('symbolic index')
-                p.append(iv)
+                if isinstance(iv, int): p.append(iv)
+                elif z3.is_bv(iv): p.append(('symidx', iv))
+                else: raise Unsupported('symbolic index')
             elif k == 'downcast': p.append(('variant', pr[1]))
             elif k == 'subslice': p.append(('subslice', pr[1], pr[2], pr[3]))
         return f, l, p
@@ -320,6 +340,22 @@ class Interp:
     def _walk(s, v, k, write=False):
         if isinstance(k, tuple):
             if k[0] == 'variant': return v
+            if k[0] == 'symidx':
+                if write: raise Unsupported('write through a symbolic index')
+                arr = v[1][v[2]:v[2] + v[3]] if (isinstance(v, tuple) and v and v[0] == 'view') else v
+                if arr and hasattr(arr[0], 'mir_table_read'):
+                    r = arr[0].mir_table_read(arr, k[1])
+                    if r is not None: return r
+                try:
+                    out = arr[-1]
+                    for i in range(len(arr) - 2, -1, -1):
+                        out = merge_values(k[1] == z3.BitVecVal(i, k[1].size()), arr[i], out)
+                    return out
+                except Unsupported:
+                    if len(arr) > 8: raise
+                    for i in range(len(arr) - 1):          # entries that cannot be merged: fork on the index value
+                        if s.ctx.decide(k[1] == z3.BitVecVal(i, k[1].size())): return arr[i]
+                    return arr[-1]
             if k[0] == 'slice': return ('view', v, k[1], k[2])
             if k[0] == 'cidx':
                 if isinstance(v, tuple) and v[0] == 'view': _, arr, st, ln = v; return arr[st + (ln - k[1] if k[2] else k[1])]
@@ -368,6 +404,7 @@ class Interp:
         else: v[k] = val
 
     def deref(s, r):
+        if isinstance(r, BoxPtr): r = r.ref
         if isinstance(r, Ref): return s.read(r.frame, r.local, list(r.path))
         if isinstance(r, SliceRef):
             arr = s.read(r.base.frame, r.base.local, list(r.base.path))
@@ -491,6 +528,7 @@ class Interp:
 
     def rvalue(s, frame, txt, dst_ty=None):
         txt = txt.strip()
+        if txt.startswith('no_retag '): txt = txt[9:]
         if txt.startswith(('copy ', 'move ', 'const ')):
             m = re.match(r'^((?:copy|move|const) .*) as (.*?) \((\w+)(?:\(.*\))?(?:, \w+)?\)$', txt)
             if not m: return s.operand(frame, txt)
@@ -793,7 +831,9 @@ class Interp:
                 if st.startswith('assert('):
                     m = re.match(r'^assert\((!?)(.*?), (".*) -> \[success: (bb\d+), unwind.*\]$', st)
                     v = s.operand(fr, m.group(2))
-                    ok = s.truth(v, negate=bool(m.group(1)))
+                    s._in_assert = True
+                    try: ok = s.truth(v, negate=bool(m.group(1)))
+                    finally: s._in_assert = False
                     if not ok: raise Panic('assert failed: ' + m.group(3)[:80] + ' in ' + fr.item.name)
                     nxt = m.group(4); break
                 if st.startswith('drop('):
@@ -820,6 +860,7 @@ class Interp:
                     else:
                         args2 = [s.operand(fr, a) for a in split_top(argtxt)]
                         val = s.call(fr, fn, args2, s.place_type(fr, loc, pr))
+                    if s.assign_hooks and not pr: val = s.run_assign_hook(fr, loc, val)
                     f, l, p = s.resolve(fr, loc, pr); s.write(f, l, p, val)
                     nxt = ret; break
                 m = re.match(r'^(.*?) = (.*)\) -> (?:unwind .*|bb\d+|\[.*\])$', st)
@@ -830,6 +871,7 @@ class Interp:
                 if m:
                     loc, pr = parse_place(m.group(1))
                     val = s.rvalue(fr, m.group(2), s.place_type(fr, loc, pr))
+                    if s.assign_hooks and not pr: val = s.run_assign_hook(fr, loc, val)
                     f, l, p = s.resolve(fr, loc, pr); s.write(f, l, p, val)
                     continue
                 raise Unsupported('stmt ' + st)
@@ -860,6 +902,9 @@ class Interp:
     def truth(s, v, negate=False):
         if isinstance(v, bool): return (not v) if negate else v
         if z3.is_bool(v):
+            pr = getattr(s.ctx, 'assert_prover', None)
+            if pr is not None and getattr(s, '_in_assert', False):
+                return pr(z3.Not(v) if negate else v)
             c = s.ctx.decide(v)
             return (not c) if negate else c
         raise Unsupported(f'truth of {v!r}')
@@ -1006,4 +1051,11 @@ def find_item(items, pattern):
     """unique item whose name matches the regex `pattern`"""
     c = [it for k, it in items.items() if re.search(pattern, k)]
     if len(c) != 1: raise Unsupported(f'item pattern {pattern!r} matches {len(c)} items: ' + ', '.join(x.name for x in c[:5]))
+    return c[0]
+
+
+def find_item_hdr(items, name_re, header_re, kind=None):
+    """unique item whose name matches `name_re` and whose impl header (source text) matches `header_re`"""
+    c = [it for k, it in items.items() if re.search(name_re, k) and it.impl_at and re.search(header_re, it.impl_header()) and (kind is None or it.kind == kind)]
+    if len(c) != 1: raise Unsupported(f'item {name_re!r} with header {header_re!r} matches {len(c)} items: ' + ', '.join(x.name for x in c[:5]))
     return c[0]
